@@ -42,6 +42,7 @@ type Case struct {
 	Procs int        `json:"procs"`           // GOMAXPROCS of the concurrent part
 	Reps  int        `json:"reps,omitempty"`  // >1: the concurrent part is executed Reps times (regression cases of schedule-dependent defects; never generated)
 	Sub   int        `json:"sub,omitempty"`   // >0: run the concurrent part Sub times in a child process (witnesses of process-killing races; never generated)
+	Fresh bool       `json:"fresh,omitempty"` // every document is built alone in a FRESH process of its own and all of them together in another fresh process (fresh.go)
 	Cold  bool       `json:"cold,omitempty"`  // the concurrent part is executed first of all in a FRESH process: the first use of every feature in that process happens in several goroutines at once (cold.go)
 }
 
@@ -55,13 +56,15 @@ var families = map[string][]string{
 	"props": {"props", "title", "author", "stats"},
 	"page":  {"pagesize", "custompage", "orient", "margins", "hfdist", "gutter", "docgrid", "cleargrid"},
 	"table": {"table", "celltext", "cellpara", "insrow", "appcol", "mergeh", "nested"},
-	"tpl":   {"tplstr", "tpldoc", "tpldoc2"},
+	"tpl":   {"tplstr", "tpldoc", "tpldoc2", "tplc", "tpldc"},
 	"md":    {"md", "mdc"},
 	"toc":   {"toc", "autotoc", "updatetoc"},
 	// documents derived from one another (derived.go)
 	"derived": {"swap", "notecount", "rmfootnote", "rmendnote", "reopen", "openforeign"},
 	// the style manager used directly (styles.go)
 	"stylemgr": {"restyle", "rmstyle"},
+	// one call repeated 10..900 times (bulk.go)
+	"bulk": {"bulk"},
 }
 var focusNames = []string{"image", "hf", "style", "props", "page", "table", "tpl", "md", "toc"}
 
@@ -171,6 +174,12 @@ func raceOpen() bool {
 
 func genCase(t *rapid.T) Case {
 	k := rapid.SampledFrom([]int{1, 1, 2, 2, 3, 4}).Draw(t, "k")
+	// one case in eighty: 9-11 documents with short histories, judged with references from fresh processes as well (the
+	// tenth document of a process is then compared with the same document as the first of a process)
+	many := !kit.RaceMode() && rapid.IntRange(0, 79).Draw(t, "many-docs") == 79 // shrinks towards "no"
+	if many {
+		k = rapid.IntRange(8, 10).Draw(t, "k-many")
+	}
 	nf := rapid.IntRange(1, 3).Draw(t, "nfocus")
 	var focus []string
 	for i := 0; i < nf; i++ {
@@ -189,6 +198,9 @@ func genCase(t *rapid.T) Case {
 	owner := rapid.IntRange(0, k).Draw(t, "regowner")
 	c := Case{Procs: rapid.SampledFrom([]int{2, 4, 16}).Draw(t, "procs")}
 	maxOps := kit.Scale(12, 25)
+	if many {
+		maxOps = 4
+	}
 	total := 0
 	// cold case (cold.go): one drawn op opens every history; the concurrent part runs first of all in a fresh process.
 	// The race twin, which judges nothing but the concurrent part, spends half of its cases on it.
@@ -204,17 +216,40 @@ func genCase(t *rapid.T) Case {
 		}
 		c.Cold = true
 	}
+	// fresh case (fresh.go, variants.go): 1-3 further common first ops, of which every document gets its own near-equal
+	// variant; the documents are built once more in fresh processes (alone / together). The race twin judges nothing
+	// that depends on it.
+	nCold := len(prefix)
+	if !kit.RaceMode() && (rapid.IntRange(0, 11).Draw(t, "fresh") == 11 || many) { // shrinks towards "not fresh"
+		fcfg := &ops.Config{Classes: classes, Weights: weights(false, focus)}
+		for i, m := 0, rapid.IntRange(1, 3).Draw(t, "nfresh"); i < m; i++ {
+			prefix = append(prefix, freshOp(t, fcfg))
+		}
+		c.Fresh = true
+		if maxOps > 6 && !kit.RaceMode() {
+			maxOps = kit.Scale(6, 12) // the case is executed twice more in child processes
+		}
+	}
 	// one case in six: the documents of the case come (also) out of conversions with ONE Converter object and one
 	// option set, from texts that define names (link references, footnotes) and texts that use them (converter.go)
 	batch := -1
 	if rapid.IntRange(0, 5).Draw(t, "shared-converter") == 5 { // shrinks towards "no"
 		batch = rapid.IntRange(0, len(mdcPresets)-1).Draw(t, "batch-preset")
 	}
+	large := rapid.IntRange(0, 19).Draw(t, "large") == 19 // shrinks towards "no"
+	bulkCase := rapid.IntRange(0, 7).Draw(t, "bulk-case") == 7
+	if large && maxOps > 8 {
+		maxOps = kit.Scale(8, 16)
+	}
 	for d := 0; d <= k; d++ {
 		reg := mode == 2 || (mode == 1 && d == owner)
 		cfg := &ops.Config{Classes: classes, Weights: weights(reg, focus)}
 		h := cfg.History(t, 1, maxOps)
 		withSharedConverter(t, h)
+		withSharedEngine(t, h) // engine.go
+		if rapid.IntRange(0, 9).Draw(t, "failcall") == 9 {
+			h = insertAt(h, rapid.IntRange(0, len(h)).Draw(t, "fail-at"), failCallOp(t))
+		}
 		if rapid.IntRange(0, 3).Draw(t, "derived-scenario") == 0 {
 			// documents derived from one another (template base / renders / siblings / reopened copies) and edits
 			// that jump between them: see derived.go
@@ -231,13 +266,34 @@ func genCase(t *rapid.T) Case {
 				h = append(append(append([]ops.Op{}, h[:at]...), mdcOp(t, batch)), h[at:]...)
 			}
 		}
+		// counts and sizes out of the reach of a dozen single calls (bulk.go): in a "large" case three documents in four
+		// get several hundred paragraphs or a big picture (parts of more than 64 KiB), otherwise, in one case in eight, every
+		// second history repeats one call 10..100 times
+		if large && rapid.IntRange(0, 3).Draw(t, "large-doc") > 0 {
+			// in the second half of the history: a conversion or a string template after it would drop the large document
+			h = insertAt(h, rapid.IntRange(len(h)/2, len(h)).Draw(t, "large-at"), bulkOp(t, true))
+		} else if bulkCase && rapid.Bool().Draw(t, "bulk") {
+			h = insertAt(h, rapid.IntRange(0, len(h)).Draw(t, "bulk-at"), bulkOp(t, false))
+		}
 		if len(prefix) > 0 {
 			var hp []ops.Op
-			for _, o := range prefix {
-				hp = append(hp, copyOp(o))
+			how := 0
+			if c.Fresh {
+				how = drawVariant(t)
 			}
-			if len(h) > maxOps-len(hp) {
-				h = h[:maxOps-len(hp)]
+			for i, o := range prefix {
+				if i < nCold {
+					hp = append(hp, copyOp(o)) // cold: the same input in every goroutine
+				} else {
+					hp = append(hp, variantOp(o, how))
+				}
+			}
+			room := maxOps - len(hp)
+			if room < 1 {
+				room = 1
+			}
+			if len(h) > room {
+				h = h[:room]
 			}
 			h = append(hp, h...)
 		}
@@ -305,6 +361,10 @@ type docRun struct {
 	born    map[*document.Document]birth
 
 	conv *convPool // the Converter objects the "mdc" ops of this history use (converter.go)
+
+	vals   []heldVal   // accessor results that are values of their own, kept in the same way
+	held   []heldBytes // byte slices the library returned for this history's documents, kept to be looked at again (retain.go)
+	nSaves int
 
 	tbOK     bool   // the final ToBytes of the current document succeeded
 	zipNames string // race twin: only the entry names of the final ToBytes are kept
@@ -432,6 +492,7 @@ func (r *docRun) step(o ops.Op) {
 	if !r.dead {
 		kit.Try(r.noteAside)
 	}
+	r.holdSaves()
 }
 
 func freshDir(base string, d int) string {
@@ -473,8 +534,10 @@ func (r *docRun) snap(withCounts bool) *Snap {
 			if b, err := r.x.Doc.ToBytes(); err == nil {
 				r.tbOK = true
 				r.zipNames = zipNames(b)
+				r.hold("ToBytes", b)
 			}
 		})
+		r.holdAccessors(r.x.Doc)
 		for _, sd := range r.x.Side {
 			sd := sd
 			kit.Try(func() { sd.ToBytes() })
@@ -490,7 +553,9 @@ func (r *docRun) snap(withCounts bool) *Snap {
 	if i, ok := s.index["ToBytes"]; ok && s.Items[i].Val == "ok" {
 		r.tbOK = true
 		r.pkgSnap = s
+		r.hold("ToBytes", s.raw)
 	}
+	r.holdAccessors(r.x.Doc)
 	kit.Try(func() { r.checkAside(s) })
 	return s
 }
@@ -508,7 +573,9 @@ func runAloneRun(base string, d int, history []ops.Op, track bool) (*docRun, *Sn
 	for _, o := range history {
 		r.step(o)
 	}
-	return r, r.snap(true)
+	s := r.snap(true)
+	r.addHeld(s, nil)
+	return r, s
 }
 
 // runInterleaved executes all histories in one goroutine in the order the case prescribes and returns the
@@ -560,7 +627,7 @@ func runInterleaved(base string, c Case) ([]*Snap, []int, [][]string, [][]string
 	os.RemoveAll(shared)
 	os.MkdirAll(shared, 0o755)
 	save := make([][]string, n)
-	for rep := 0; rep < saveReps; rep++ {
+	for rep := 0; rep < saveReps && !inFreshChild; rep++ {
 		for d := 0; d < n; d++ {
 			r := runs[d]
 			if r.x == nil || r.dead {
@@ -576,7 +643,7 @@ func runInterleaved(base string, c Case) ([]*Snap, []int, [][]string, [][]string
 			}
 		}
 	}
-	for d := 0; d < n; d++ {
+	for d := 0; d < n && !inFreshChild; d++ {
 		r := runs[d]
 		if r.x == nil || r.dead || !r.tbOK || r.pkgSnap == nil {
 			continue
@@ -590,6 +657,11 @@ func runInterleaved(base string, c Case) ([]*Snap, []int, [][]string, [][]string
 		for _, dl := range diffFileParts(r.pkgSnap, fb) {
 			save[d] = append(save[d], fmt.Sprintf("file %s written by Save differs from the document's ToBytes: item=%s: %s", filepath.Base(path), dl.Item, dl.Detail))
 		}
+	}
+	// the byte slices the documents' ToBytes calls returned, looked at again now that every other document has been
+	// edited, serialised and saved (retain.go)
+	for d := 0; d < n; d++ {
+		runs[d].addHeld(snaps[d], nil)
 	}
 	return snaps, sched, i4, save
 }
@@ -725,6 +797,13 @@ func runConcurrent(base string, c Case, countsInside bool) *concResult {
 			}
 			saved.Done()
 			saved.Wait() // nobody writes any more
+			// the byte slices this document's ToBytes calls returned, looked at again now that all the other goroutines
+			// have serialised and saved their documents (retain.go); the race twin has no reference run to compare with
+			if kit.RaceMode() {
+				r.addHeld(nil, &saveFail[d])
+			} else {
+				r.addHeld(snaps[d], nil)
+			}
 			if r.x == nil || r.dead {
 				return
 			}
@@ -898,6 +977,21 @@ func run(c Case) *kit.Result {
 			res.Label("converter:shared-by-documents")
 		}
 	}
+	engDocs := 0
+	for _, h := range c.Docs {
+		if hasKind(h, "tplc") || hasKind(h, "tpldc") {
+			engDocs++
+		}
+		if hasKind(h, "failcall") {
+			res.Label("failcall")
+		}
+	}
+	if engDocs >= 2 {
+		res.Label("engine:shared-by-documents")
+	}
+	if n >= 9 {
+		res.Label("docs:9-or-more")
+	}
 	regDocs := 0
 	for _, h := range c.Docs {
 		if len(docFams(h)) > 0 {
@@ -948,6 +1042,37 @@ func run(c Case) *kit.Result {
 		}
 	}
 
+	if !race {
+		// documents whose parts total more than 64 KiB (the sizes from which buffers are worth pooling)
+		big := 0
+		for d := 0; d < n; d++ {
+			size := 0
+			for _, it := range alone[d].Items {
+				if strings.HasPrefix(it.Name, "part:") {
+					size += len(it.Raw)
+				}
+			}
+			if size > 64<<10 {
+				big++
+			}
+		}
+		if big >= 2 {
+			res.Label("large:two-documents-over-64KiB")
+		} else if big == 1 {
+			res.Label("large:one-document-over-64KiB")
+		}
+	}
+	for _, h := range c.Docs {
+		for _, o := range h {
+			if o.K == "bulk" && len(o.S) > 0 {
+				res.Label("bulk:" + o.S[0])
+				if iArg(o, 0) > 64 && o.S[0] != "paras" && o.S[0] != "bigimage" {
+					res.Label("bulk:more-than-64-items")
+				}
+			}
+		}
+	}
+
 	between := false
 	if !race {
 		// I0: the reference itself is a function of the calls (same history, same fresh state, twice); every third case
@@ -984,6 +1109,11 @@ func run(c Case) *kit.Result {
 			res.Eval("C07.I1")
 			judge(res, "C07.I1", d, alone[d], snaps[d])
 		}
+	}
+
+	// I6: the references built in processes of their own
+	if c.Fresh && !race && n >= 2 && c.Sub == 0 {
+		runFresh(res, c)
 	}
 
 	// I2 / I3: one goroutine per document
@@ -1064,6 +1194,9 @@ func TestC07(t *testing.T) {
 			"two md conversions in three use a Converter object from a pool (one per option set; texts that define and use link references / footnotes / equal headings): alone and in its goroutine a history has its own pool, in the interleaved run all documents share one; one case in six puts 1-2 such conversions with one option set into every history; " +
 			"documents set aside inside a history are observed twice (I4); the history is executed again without the calls on other documents of its family (I5); both runs end with Save calls of all documents into one shared directory (one after the other / overlapping); " +
 			"cold cases (1 in 8, race twin 1 in 2): every history starts with the same 1-3 drawn ops and the concurrent part runs first of all in a fresh child process; " +
+			"fresh cases (1 in 12, normal binary): every history starts with 1-3 further common ops (Markdown with formulas built from a few atoms, templates, LaTeX formulas, headings, styles ...) of which each document gets its own near-equal variant (blanks inside brackets, outer blanks, double blanks, blanks at line ends, letter case), histories of at most 6 ops; every document is built once more alone in a fresh process of its own and all of them interleaved in another fresh process (I6); 1 case in 80 has 9-11 documents with at most 4 ops each and is a fresh case; " +
+			"sizes: 1 case in 20 is large (three documents in four get 450-900 paragraphs or a 160-200 pixel picture: parts of more than 64 KiB), 1 case in 8 has histories that repeat one call 10-100 times (pictures, notes, headings, list items, tables, rows, columns, styles); every second tplstr/tpldoc uses one TemplateEngine per run (shared by all documents in the interleaved run), 1 history in 10 contains a call that fails (open of garbage / of a missing file, save below a regular file, picture from a missing file, render of an unknown template, unbalanced template); " +
+			"every byte slice returned by ToBytes (save ops, final) and the values returned by GetPageSettings / ListHeadings are kept and looked at again at the very end of each run; " +
 			"distinct = distinct vector of (history length, op families used) per document",
 		Gen: genCase, Run: run, Findings: fs, Fixed: fixedCases,
 		Assumptions: []string{
@@ -1072,10 +1205,13 @@ func TestC07(t *testing.T) {
 			"the race twin relies on the Go race detector (reports each distinct race once per process)",
 			"I5: ops that create or select a document (render, reopen, conversion, swap) are kept when the calls on other documents are removed; they are assumed not to edit the document they read, apart from what they do identically in both runs",
 			"a markdown.Converter is used by one goroutine at a time (the property does not state that one Converter may be shared between goroutines); the converters of a pool are always called with the option values they were made with",
+			"I6: the child processes differ from one another only in the calls they make (same binary, same environment, same relative scratch path, a working directory each)",
+			"kept byte slices / accessor values: a slice that the document's own later calls invalidate changes in the run alone as well; only a difference between the runs is reported",
 			"set-aside documents are observed after one discarded round of the same observer calls (the observer's calls are calls on the document: lazily materialised section properties, table style definitions registered by ToBytes)",
 		},
 		MustSee: map[string]float64{"shared:style|header|image": 0.5, "registry:none": 0.2, "conc:cold-start": 0.05, "derived:rmnote": 0.1, "derived:swap": 0.1,
-			"converter:shared-by-documents": 0.05, "derived:style-edit-after-render-of-opened-base": 0.03},
+			"converter:shared-by-documents": 0.05, "derived:style-edit-after-render-of-opened-base": 0.03,
+			"fresh:reference-in-own-process": 0.04, "large:two-documents-over-64KiB": 0.005, "bulk:more-than-64-items": 0.005},
 		CaseLimit: 45 * time.Second, // a cold case starts a process; the machine may be busy
 	})
 }
